@@ -76,6 +76,41 @@ def runDerive (seed path : Bytes) (rest : List String) : Option String := do
   let (log, r) := deriveForPathLog C path seed
   pure (showDerive hm log (r.map (toKeyPair C)))
 
+/-- `wl-decrypt-ks` / `wl-decrypt-rewrite`: a key file AS READ (the recorded address is whatever the file says — it is not
+    bound to the password), its password, and the oracle values for the whole chain Decrypt → keyStoreFromEntropy:
+    `fileBase ct nonce salt pw dk opened mnemonic seed <hmac table> pub sha3(pub)`. Returns the oracle instance, the key
+    file and the password, or "query-mismatch" when the HMAC inputs of the model are not the ones the harness hashed. -/
+def parseDecryptKs (toks : List String) : Option (Except String (CryptoFns × KeyFile × Bytes)) := do
+  let fileBase :: ct :: nonce :: salt :: pw :: dk :: opened :: mn :: seed :: rest := toks | none
+  let fileBase ← ofHex fileBase
+  let ct ← ofHex ct
+  let nonce ← ofHex nonce
+  let salt ← ofHex salt
+  let pw ← ofHex pw
+  let dk ← ofHex dk
+  let opened ← (if opened = "none" then some none
+                else match opened.splitOn ":" with
+                  | ["some", x] => (ofHex x).map some
+                  | _ => none)
+  let mn ← (if mn = "none" then some none else (ofHex mn).map some)
+  let seed ← ofHex seed
+  let nq :: rest := rest | none
+  let nq ← nq.toNat?
+  let (hm, rest) ← parseTriples nq rest
+  let [pub, h] := rest | none
+  let pub ← ofHex pub
+  let h ← ofHex h
+  let C : CryptoFns := { deriveFns hm (lastKey hm) pub h with
+    kdf := fun ps p s => if ps = [1, 65536, 4, 32] ∧ p = pw ∧ s = salt then dk else []
+    aeadOpen := fun k n ad c => if k = dk ∧ n = nonce ∧ ad = [122, 101, 110, 111, 110] ∧ c = ct then opened else none
+    mnemonic := fun e => if some e = opened then mn else none
+    seed := fun m => if some m = mn then seed else [] }
+  let qok := match opened, mn with
+    | some _, some _ => (deriveForPathLog C (indexPath 0) seed).1.map (fun q => (q.hkey, q.msg)) == hm.map (fun e => (e.1, e.2.1))
+    | _, _ => hm.isEmpty
+  if !qok then pure (.error "query-mismatch") else
+  pure (.ok (C, ⟨fileBase, Gen.aesMode, Gen.argonName, ct, nonce, salt, Gen.cryptoStoreVersion⟩, pw))
+
 def pureWallet : List String → Option String
   | ["wl-path", p] => do
       let p ← ofHex p
@@ -176,6 +211,22 @@ def pureWallet : List String → Option String
       match decryptEntropy C kf pw with
       | .error e => pure ("err " ++ e.show)
       | .ok e => pure ("ok " ++ showHex e)
+  | "wl-decrypt-ks" :: rest => do
+      -- the whole `KeyFile.Decrypt`: the key store of the decrypted entropy, whatever address the file records
+      match ← parseDecryptKs rest with
+      | .error m => pure m
+      | .ok (C, kf, pw) =>
+        match decrypt C kf pw with
+        | .error e => pure ("err " ++ e.show)
+        | .ok ks => pure s!"ok {showHex ks.entropy} {showHex ks.baseAddress} {showHex ks.seed} {showHex ks.mnemonic}"
+  | "wl-decrypt-rewrite" :: rest => do
+      -- Decrypt, then Encrypt the key store again (new password, new salt / nonce): the address the NEW file records
+      match ← parseDecryptKs rest with
+      | .error m => pure m
+      | .ok (C, kf, pw) =>
+        match decrypt C kf pw with
+        | .error e => pure ("err " ++ e.show)
+        | .ok ks => pure ("baseAddress=" ++ showHex (encrypt nullFns ks [] [] []).baseAddress)
   | ["wl-text", c, n, sa] =>
       -- the three byte fields as JSON text (possibly malformed) → what ReadKeyFile decodes
       match (KeyFileText.mk c.toList n.toList sa.toList).parse with
